@@ -468,6 +468,7 @@ func c02r5(c *core.Ctx) {
 		c.Undecided("NewSetupServerController-callers", token.NoPos, "no library call site found")
 	}
 	freshState(c, ctor, "the pair-setup controller constructor")
+	freshChallengePerExchange(c)
 	// the SRP session object handed out is the one created in this invocation
 	if ns := p.Func("hap/pair", "NewSetupServerSession"); ns != nil {
 		ok, k := true, 0
@@ -552,4 +553,59 @@ func pkgPathOf(f *ssa.Function) string {
 		return f.Pkg.Pkg.Path()
 	}
 	return ""
+}
+
+// freshChallengePerExchange: the salt and the public key B that a start response hands out belong to an SRP session created for
+// that start request. With one session per connection the challenge of every exchange on the connection is the same, so the
+// recorded (A, proof) of an earlier exchange is a right proof again and the recorded key-exchange message decrypts and verifies:
+// an exchange made only of repeated messages stores a pairing.
+func freshChallengePerExchange(c *core.Ctx) {
+	p := c.P
+	m := buildStepModel(p, "hap/pair", "SetupServerController", tSetupCtrl)
+	if m == nil {
+		return
+	}
+	isSaltLoad := func(v ssa.Value) bool {
+		found := false
+		walkOperands(v, 4, func(x ssa.Value) {
+			if _, ok := core.FieldLoad(x, tSetupSess, "Salt"); ok {
+				found = true
+			}
+		})
+		return found
+	}
+	n := 0
+	for _, h := range m.handlers {
+		var send ssa.Instruction
+		core.Instrs(h, func(i ssa.Instruction) {
+			if core.IsInvoke(i, qContainer, "SetBytes") && isSaltLoad(core.Args(i)[1]) {
+				send = i
+			}
+		})
+		if send == nil {
+			continue
+		}
+		n++
+		fresh := false
+		core.Instrs(h, func(i ssa.Instruction) {
+			st, ok := i.(*ssa.Store)
+			if !ok {
+				return
+			}
+			if _, isF := core.FieldAddrOf(st.Addr, tSetupCtrl, "session"); !isF {
+				return
+			}
+			made := core.AnySource(st.Val, func(sv ssa.Value) bool {
+				return core.CallResult(sv, 0, func(ci ssa.Instruction) bool { return core.IsCall(ci, mod+"/hap/pair.NewSetupServerSession") }) != nil
+			})
+			if made && instrDominates(st, send) {
+				fresh = true
+			}
+		})
+		c.Check(fresh, "fresh-challenge-per-exchange@"+fname(h), posOf(send), "the salt and public key sent belong to an SRP session created in this start handler",
+			"the start handler hands out the salt and public key of the session the controller was created with: every exchange on a connection gets the same challenge, and the recorded messages of an earlier exchange (start, proof, key exchange) are accepted again — a pairing is stored by a party that only repeats bytes")
+	}
+	if n == 0 {
+		c.Undecided("fresh-challenge-per-exchange", token.NoPos, "no step handler sends the SRP salt")
+	}
 }
